@@ -25,6 +25,11 @@ theorem one_shl_mod (i : Nat) (h : i < 64) : (1 <<< i) % 18446744073709551616 = 
   exact Nat.mod_eq_of_lt (by have := Nat.pow_lt_pow_right (a := 2) (by decide) h; simpa using this)
 
 theorem dec_beq (a b : Nat) : decide (a = b) = (a == b) := by by_cases h : a = b <;> simp [h]
+theorem dec_beq' (a b : Nat) : decide (a = b) = (b == a) := by
+  by_cases h : a = b
+  · simp [h]
+  · have : ¬ b = a := fun e => h e.symm
+    simp [h, this]
 
 /-! ## `PageDiff` (`nomt/src/page_diff.rs`) -/
 
@@ -35,9 +40,9 @@ theorem pd_changed_eq (d : PageDiff) (slot : Nat) :
   have hi : slot % 64 < 64 := Nat.mod_lt _ (by decide)
   simp only [if_pos (show (64 : Nat) ≠ 0 by decide), if_pos hi, one_shl_mod _ hi]
   by_cases h0 : slot / 64 = 0
-  · simp [h0, PageDiff.word, outOpt, dec_beq]
+  · simp [h0, PageDiff.word, outOpt, dec_beq, dec_beq']
   · by_cases h1 : slot / 64 = 1
-    · simp [h1, PageDiff.word, outOpt, dec_beq]
+    · simp [h1, PageDiff.word, outOpt, dec_beq, dec_beq']
     · have h2 : ¬ slot / 64 < 2 := by omega
       rw [if_neg h2]
       have : d.word (slot / 64) = none := by
@@ -71,7 +76,7 @@ theorem pd_cleared_eq (d : PageDiff) :
   unfold GenFn.pd_set_cleared GenFn.pd_cleared GenFn.pd_assert_not_cleared PageDiff.setCleared PageDiff.cleared
   refine ⟨by rw [e], ?_, ?_⟩
   · rw [e]; congr 1
-    all_goals (by_cases h : d.w1 &&& CLEAR_BIT = CLEAR_BIT <;> simp [h])
+    all_goals first | exact dec_beq _ _ | exact dec_beq' _ _
   · rw [e2, if_pos (by decide)]
     by_cases h : d.w1 &&& CLEAR_BIT = 0 <;> simp [h]
 
@@ -200,12 +205,15 @@ theorem probe_next_eq (bv : List Nat) (hv : ∀ b ∈ bv, b = 0 ∨ b = 127 ∨ 
       · subst h127; simp [slotOfByte, prGen]
       · have n0 : byte ≠ 0 := by omega
         have n127 : byte ≠ 127 := by omega
-        simp only [slotOfByte, n0, n127, if_false, decide_false, Bool.false_eq_true]
+        have n0s : ¬ 0 = byte := by omega
+        have n127s : ¬ 127 = byte := by omega
+        simp only [slotOfByte, n0, n127, n0s, n127s, if_false, decide_false, Bool.false_eq_true]
         by_cases htag : byte - 128 = tagOf hash
         · have : byte = tagOf hash + 128 := by omega
           simp [htag, this, prGen]
-        · have : byte ≠ tagOf hash + 128 := by omega
-          simp only [ne_eq, this, not_false_eq_true, decide_true, if_true, htag]
+        · have t1 : byte ≠ tagOf hash + 128 := by omega
+          have t2 : tagOf hash + 128 ≠ byte := by omega
+          simp only [ne_eq, t1, t2, not_false_eq_true, decide_true, if_true, htag]
           exact ih _ _ (by have : (2:Nat)^63 = 9223372036854775808 := by decide
                            omega) (by omega)
 
